@@ -559,6 +559,7 @@ fn plan(c: &Case) -> Vec<PRow> {
                 }
             }
         }
+        let needs_payload = merkle && ins[RE..WE].iter().any(|i| matches!(i, In::Hidden));
         rows.push(PRow {
             new_start: s.new_start,
             merkle,
@@ -568,7 +569,15 @@ fn plan(c: &Case) -> Vec<PRow> {
             outs,
             all_outputs: s.all_outputs,
             index: merkle && (s.index || (last && c.end_merkle_index)),
-            sibling: if merkle { (s.sibling as usize).min(WE - RE) } else { 0 },
+            // a Merkle row with an unexposed sibling limb takes a private payload (a row without
+            // any is an execution error since the repair 6f9e7da); rows whose sibling limbs are all
+            // exposed may go without
+            sibling: if merkle {
+                let n = (s.sibling as usize).min(WE - RE);
+                if n == 0 && needs_payload { 1 } else { n }
+            } else {
+                0
+            },
             post: s.post % 3,
             filler: false,
         });
@@ -1494,7 +1503,13 @@ fn private_cfg<P: PCfg>(c: &Case, prefix: &str) -> Report {
         Ok(o) => o,
         Err(p) => PdRun::Panic(p),
     };
-    let must_err = matches!(pd, Pd::OnSponge { .. } | Pd::Twice { .. } | Pd::OutOfRange { .. } | Pd::UnknownTag);
+    // since the repair 6f9e7da an arity-2 Merkle row that ends up WITHOUT a payload (withheld, or a
+    // payload of a foreign type, which the executor cannot read) and has an unexposed sibling limb
+    // is an execution error
+    let no_payload_on_needy_row = matches!(pd, Pd::Withheld { .. } | Pd::WrongType { .. })
+        && target_row.is_some_and(|r| bt.plan[r].ins[RE..WE].iter().any(|i| matches!(i, In::Hidden)));
+    let must_err = no_payload_on_needy_row
+        || matches!(pd, Pd::OnSponge { .. } | Pd::Twice { .. } | Pd::OutOfRange { .. } | Pd::UnknownTag);
     let must_ok = matches!(pd, Pd::ExactById | Pd::ExactByTag);
     let tgt = target_row.map(|r| mode_name(&bt.plan[r])).unwrap_or("-");
     match outcome {
